@@ -216,6 +216,9 @@ static const char* exclude_reason(const xdb::Form& f, const Extra& x) {
     const std::string& r = op.reg;
     if (r == "mm") return "mmx_operand";
     if (r == "st(0)" || r == "st(i)") return "x87";
+    // reading a segment register into a general register / memory (mov r/m, sreg) is harmless in user mode and is executed; every other
+    // special-register operand (loading a selector, control / debug / bound / tile registers) is not
+    if (r == "sreg" && f.name == "mov" && f.ops.size() == 2 && &op == &f.ops[1]) continue;
     if (r == "sreg" || r == "creg" || r == "dreg" || r == "bnd" || r == "tmm" || r == "es" || r == "cs" || r == "ss" || r == "ds" || r == "fs" || r == "gs") return "special_register_operand";
     if (op.memFar) return "far_pointer";
   }
